@@ -49,14 +49,17 @@ impl<const N: usize, Value> IndexMap<N, Value> {
 
     #[inline(always)]
     pub(crate) fn iter(&self) -> impl Iterator<Item = &(usize, Value)> {
-        self.values.iter()
-            .filter(|(i, _)| *unsafe {self.index.get_unchecked(*i)} != Self::NULL)
+        /* an entry is alive only while its slot points to it: entries left by `delete` must not revive when the key is `set` again */
+        self.values.iter().enumerate()
+            .filter(|(pos, (i, _))| *unsafe {self.index.get_unchecked(*i)} as usize == *pos)
+            .map(|(_, entry)| entry)
     }
 
     #[inline(always)]
     pub(crate) fn into_iter(self) -> impl Iterator<Item = (usize, Value)> {
-        self.values.into_iter()
-            .filter(move |(i, _)| *unsafe {self.index.get_unchecked(*i)} != Self::NULL)
+        self.values.into_iter().enumerate()
+            .filter(move |(pos, (i, _))| *unsafe {self.index.get_unchecked(*i)} as usize == *pos)
+            .map(|(_, entry)| entry)
     }
 }
 
